@@ -347,6 +347,13 @@ def main():
             for x in r: print("%s %s :: %s" % (x["kind"], x["why"], x["line"]))
             print("replay: %d lines, %d failing" % (len(lines), len(bad)))
             return 1 if bad else 0
+        # witnesses of recorded findings run first, so their KNOWN-FINDING line never depends on the generators
+        wl = [w for k in known for w in k.get("witness", [])]
+        if wl:
+            r, s_, raw = exec_lines(binp, wl, known_ids)
+            for y in r: y["variant"] = variant; y["bin"] = binp
+            all_r += r
+            if s_: sums.append(s_)
         nsl = P.get("slices", {}).get(tier, NCPU)
         base = ["--seed", str(seed), "--tier", tier, "--prop", prop]
         args_list = [base + ["--slice", "%d/%d" % (k, nsl)] for k in range(nsl)]
